@@ -295,14 +295,16 @@ def _related(a: str, b: str) -> bool:
     return a == b or a.startswith(b) or b.startswith(a)
 
 
-def gen_part(rng, boundary: str, subtype: str, depth: int, *, allow_nested=True, size=None, cls=None, enc_choice=None, outer=(), empty_nested=False) -> dict:
+def gen_part(rng, boundary: str, subtype: str, depth: int, *, allow_nested=True, size=None, cls=None, enc_choice=None, outer=(), empty_nested=False, kinds=None, max_depth=2, max_size=None) -> dict:
     B = boundary.encode()
     blen = len(B) + 4
     form = subtype == "form-data"
     n = gen_size(rng, blen) if size is None else size
-    kinds = ["bytes", "bytes", "bytes", "bytesio", "agen", "agen", "str", "json", "form"]
-    if depth < 2 and allow_nested:
-        kinds += ["nested"]
+    if max_size is not None:
+        n = min(n, max_size)
+    kinds = list(kinds) if kinds is not None else ["bytes", "bytes", "bytes", "bytesio", "agen", "agen", "str", "json", "form"]
+    if depth < max_depth and allow_nested:
+        kinds += ["nested"] * (1 if max_depth <= 2 else 2)
     kind = rng.choice(kinds)
     pp: dict = {"kind": kind}
     if kind == "nested":
@@ -314,7 +316,7 @@ def gen_part(rng, boundary: str, subtype: str, depth: int, *, allow_nested=True,
             tries += 1
         if any(_related(sub_boundary, a) for a in anc):
             sub_boundary = "zz%d%d" % (depth, rng.randint(0, 10**6))
-        sub = gen_plan(rng, depth=depth + 1, boundary=sub_boundary, subtype=rng.choice(["mixed", "related", "alternative", "form-data"]), nparts=rng.choice([1, 1, 2, 3] + ([0] if empty_nested else [])), outer_boundaries=anc)
+        sub = gen_plan(rng, depth=depth + 1, boundary=sub_boundary, subtype=rng.choice(["mixed", "related", "alternative", "form-data"]), nparts=rng.choice([1, 1, 2, 3] + ([0] if empty_nested else [])), outer_boundaries=anc, **({"kinds": kinds[: len(kinds) - (1 if max_depth <= 2 else 2)], "max_depth": max_depth, "max_size": max_size, "enc_choice": enc_choice} if (max_depth != 2 or max_size is not None) else {}))
         pp["sub"] = sub
         pp["content"] = None
         return pp
@@ -553,3 +555,127 @@ def gen_seg_feed(rng, wire: bytes, boundary: str):
     else:
         feed = {"mode": "demand", "burst": rng.choice([1, 1, 1, 2, 3]), "eof_with_last": rng.random() < 0.6}
     return seg, feed
+
+
+# --------------------------------------------------------------------------------------------------
+# writer programs: the order in which the public API assembles a plan, interleaved with reads of `size`
+
+IN_MEMORY_KINDS = ("bytes", "str", "json", "form")  # payloads that can be written any number of times
+
+
+def decorate_nested(rng, plan: dict) -> None:
+    """Nested parts get extra headers / a disposition of their own now and then (set through the payload the
+    parent's append() returned, like for any other part)."""
+    for pp in plan["parts"]:
+        if pp["kind"] != "nested":
+            continue
+        if "headers" not in pp:
+            hs = []
+            if rng.random() < 0.5:
+                hs.append((rng.choice(HEADER_NAMES), rng.choice(HEADER_VALUE_POOL)))
+            pp["headers"] = hs
+        if "disp" not in pp and (plan["subtype"] == "form-data" or rng.random() < 0.4):
+            pp["disp"] = {"type": "form-data" if plan["subtype"] == "form-data" else rng.choice(["attachment", "inline"]), "quote": True, "name": rng.choice(["nested", "n1", "inner part"])}
+        decorate_nested(rng, pp["sub"])
+
+
+def _subplan(plan, path):
+    for k in path:
+        plan = plan["parts"][k]["sub"]
+    return plan
+
+
+def gen_program(rng, plan: dict, *, size_rate: float = 0.4) -> list:
+    """A random linearisation of the API calls that build `plan` (see vlib/mplab.build_by_program).  Constraints: a
+    writer exists before it is used; parts are appended in plan order; a part's headers / disposition are edited
+    after it was appended (the `part = w.append(..); part.set_content_disposition(..)` pattern) - any number of other
+    calls later; a nested writer is handed to its parent's append() at any moment after its creation, so it may be
+    filled and its parts edited *after* it became a part.  `size` of any existing writer is read at any point; when
+    all parts appended so far can be written repeatedly, the read may be followed by writing the writer as it is."""
+    prog: list = []
+    created = {()}
+    nxt = {(): 0}  # writer path -> index of the next part to append
+    chains: dict = {}  # part path -> list of chains (ordered edit steps); heads are enabled
+
+    def in_memory(path) -> bool:
+        sp = _subplan(plan, path)
+        for k in range(nxt.get(path, 0)):
+            pp = sp["parts"][k]
+            if pp["kind"] == "nested":
+                if not in_memory(path + (k,)):
+                    return False
+            elif pp["kind"] not in IN_MEMORY_KINDS:
+                return False
+        return True
+
+    def size_step(path, final=False):
+        st = {"op": "size", "path": list(path)}
+        if in_memory(path) and (final or rng.random() < 0.6):
+            st["write"] = True
+        if final:
+            st["final"] = True
+        prog.append(st)
+
+    def part_chains(path, i, pp, early):
+        out = []
+        for j, (n, v) in enumerate(pp.get("headers") or []):
+            if j in early:
+                if rng.random() < 0.15:
+                    # given at append time, then removed and given again
+                    out.append([{"op": "del_hdr", "path": list(path), "i": i, "h": j}, {"op": "hdr", "path": list(path), "i": i, "h": j}])
+                continue
+            ch = []
+            if rng.random() < 0.35:
+                ch.append({"op": "hdr", "path": list(path), "i": i, "h": j, "value": "provisional-" + "x" * rng.choice([0, 1, 9, 40])})
+            ch.append({"op": "hdr", "path": list(path), "i": i, "h": j})
+            out.append(ch)
+        if pp.get("disp"):
+            ch = []
+            if rng.random() < 0.3:
+                ch.append({"op": "disp", "path": list(path), "i": i, "name": "provisional-name-" + "y" * rng.choice([0, 3, 25])})
+            ch.append({"op": "disp", "path": list(path), "i": i})
+            out.append(ch)
+        if pp.get("drop_cl"):
+            out.append([{"op": "drop_cl", "path": list(path), "i": i}])
+        return out
+
+    while True:
+        acts = []
+        for path in sorted(created):
+            sp = _subplan(plan, path)
+            k = nxt[path]
+            # nested children of this writer that do not exist yet can be created at any time
+            for q in range(k, len(sp["parts"])):
+                if sp["parts"][q]["kind"] == "nested" and path + (q,) not in created:
+                    acts.append(("new", path + (q,), 2 if q == k else 1))
+            if k < len(sp["parts"]):
+                if sp["parts"][k]["kind"] != "nested" or path + (k,) in created:
+                    acts.append(("append", path, 3))
+        for pth, chs in chains.items():
+            for ci, ch in enumerate(chs):
+                if ch:
+                    acts.append(("edit", (pth, ci), 2))
+        if not acts:
+            break
+        kind, arg, _w = rng.choices(acts, weights=[a[2] for a in acts])[0]
+        if kind == "new":
+            created.add(arg)
+            nxt[arg] = 0
+            prog.append({"op": "new", "path": list(arg)})
+        elif kind == "append":
+            path = arg
+            i = nxt[path]
+            pp = _subplan(plan, path)["parts"][i]
+            hs = pp.get("headers") or []
+            early = sorted(j for j in range(len(hs)) if rng.random() < 0.5)
+            prog.append({"op": "append", "path": list(path), "i": i, "early": early})
+            nxt[path] = i + 1
+            chains[path + (i,)] = part_chains(path, i, pp, set(early))
+        else:
+            pth, ci = arg
+            prog.append(chains[pth][ci].pop(0))
+        if rng.random() < size_rate:
+            size_step(rng.choice(sorted(created) + [()]))
+    for path in sorted(created, key=lambda p: (-len(p), p)):
+        size_step(path, final=True)
+    return prog
